@@ -165,7 +165,38 @@ theorem C04_aperture_model_satisfies_spec (cfg : Scales.Aperture.Cfg) (ops : Lis
   have h' : Scales.LB.wfH cfg ops = true := h
   obtain ⟨hw, hb⟩ := (Scales.LB.wfH_iff cfg ops).1 h'
   exact Scales.LB.specC04A_trace cfg ops _ _ 0 (Scales.LB.RInv.init cfg) Scales.LB.HInv_init
-    (Scales.LB.wf_proto hw) hb
+    (Scales.LB.GInv.init cfg) (Scales.LB.wf_proto hw) hb
+
+/-- **a request that timed out while it waited for the open result books no load.**  When the open result
+    completes, the links of the waiting requests run in arrival order (`flush`).  Those whose deadline has
+    passed (`live e = false`: the timeout sink has handed the caller its TimeoutError, the request has
+    completed) leave the balancer untouched: the state after serving the waiting requests `q` is the state
+    after serving the live ones alone, and the dispatches made are the same. -/
+theorem C04_aperture_timed_out_waiter_books_no_load (cfg : Scales.Aperture.Cfg) (q : List (Option Bool)) :
+    ∀ (a : Scales.Aperture.AS),
+    (Scales.LBBase.flush (Scales.LB.sub cfg) q a).1 =
+      (Scales.LBBase.flush (Scales.LB.sub cfg) (q.filter Scales.LBBase.live) a).1 ∧
+    (Scales.LBBase.flush (Scales.LB.sub cfg) q a).2.filterMap id =
+      (Scales.LBBase.flush (Scales.LB.sub cfg) (q.filter Scales.LBBase.live) a).2.filterMap id := by
+  induction q with
+  | nil => intro a; exact ⟨rfl, rfl⟩
+  | cons e q ih =>
+    intro a
+    by_cases hl : Scales.LBBase.live e = true
+    · rw [List.filter_cons_of_pos hl]
+      unfold Scales.LBBase.flush
+      simp only [hl, if_true]
+      obtain ⟨i1, i2⟩ := ih ((Scales.LB.sub cfg).request a).1
+      exact ⟨i1, congrArg (List.cons _) i2⟩
+    · rw [List.filter_cons_of_neg hl]
+      have hl' : Scales.LBBase.live e = false := by simpa using hl
+      obtain ⟨i1, i2⟩ := ih a
+      have e1 : Scales.LBBase.flush (Scales.LB.sub cfg) (e :: q) a =
+          ((Scales.LBBase.flush (Scales.LB.sub cfg) q a).1, none :: (Scales.LBBase.flush (Scales.LB.sub cfg) q a).2) := by
+        conv => lhs; unfold Scales.LBBase.flush
+        simp only [hl', Bool.false_eq_true, if_false]
+      rw [e1]
+      exact ⟨i1, i2⟩
 
 /-! non-vacuity: an aperture of min_size 2 over three members; both active members loaded; the server set
     drops member 0 while a request is outstanding on it (the aperture takes in endpoint 2 instead); the request
@@ -180,5 +211,29 @@ def c04ApHist : List Scales.LB.Op :=
 example : Scales.LB.comp4A.wf c04ApCfg c04ApHist = true := by decide +kernel
 example : ((Scales.LB.runSt c04ApCfg (Scales.LB.init c04ApCfg) c04ApHist).sub.hs.node 0).closed = 1 ∧
     ¬ (0 ∈ (Scales.LB.runSt c04ApCfg (Scales.LB.init c04ApCfg) c04ApHist).sub.hs.heap) := by decide +kernel
+
+/-! the clause for requests that completed before they were dispatched binds.  A request with a deadline
+    arrives while the balancer is opening and waits; its deadline passes (`expire 0`: its caller has its
+    TimeoutError); the open result completes.  Observations in which the request is dropped and no load is
+    booked are accepted; observations in which it is dispatched to node 0 and node 0 carries load 1 for it —
+    no request is outstanding — are rejected; the same observations are accepted when the deadline has not
+    passed (the request is outstanding then). -/
+def c04LateObs (res : List Scales.LB.ResV) (heap : List Scales.LB.NV) (queued : Nat) : Scales.LB.Obs :=
+  { res := res, heap := heap, down := [], off := [], servers := [0], idle := [], pending := [], initDone := true,
+    blocked := 0, openAr := queued == 0, queued := queued, jitter := false, total := 0, adj := [], gActive := 0,
+    gIdle := 0 }
+
+def c04LateHist (expired : Bool) (last : Scales.LB.Obs) : List (Scales.LB.Op × Scales.LB.Obs) :=
+  [(.opn, c04LateObs [] [] 0), (.getd ⟨[], []⟩, c04LateObs [.queued] [] 1)] ++
+  (if expired then [(Scales.LB.Op.expire 0, c04LateObs [] [] 1)] else []) ++
+  [(.loaded [0] ⟨[], []⟩, last)]
+
+example : (Scales.LB.specC04A c04ApCfg
+    (c04LateHist true (c04LateObs [.dropped] [⟨0, 0, Idle, 1, 0, 2⟩] 0))).isOk = true := by decide +kernel
+example : Scales.LB.specC04A c04ApCfg
+    (c04LateHist true (c04LateObs [.node 0 0 0] [⟨0, 0, Idle + 1, 1, 0, 2⟩] 0)) =
+      .fail "load-booked-for-completed-request" [V.ofNat 3, V.ofNat 0] := by rfl
+example : (Scales.LB.specC04A c04ApCfg
+    (c04LateHist false (c04LateObs [.node 0 0 0] [⟨0, 0, Idle + 1, 1, 0, 2⟩] 0))).isOk = true := by decide +kernel
 
 end Scales.Heap
